@@ -119,7 +119,7 @@ def make_case(rng, kind, plan, nfollow=None, follow=None, nb=None, which=0, tag=
 T2 = b"t2"
 
 
-def make_case2(rng, idx, wf, rf, order):
+def make_case2(rng, idx, wf, rf, order, acks=1):
     spec = {"brokers": brokers(2), "topics": {T1: [1], T2: [2]},
             "logs": {(T1, 0): [("plain", 2, None, b"a"), ("plain", 3, None, b"b"), ("plain", 4, b"k", b"c")], (T2, 0): []},
             "log_start": {(T1, 0): 2}, "committed": {G: {(T1, 0): 3}}, "coordinator": {G: 1}}
@@ -131,12 +131,12 @@ def make_case2(rng, idx, wf, rf, order):
     plan = {}
     if wf is not None:
         plan = {"write": {idx: wf}, "read": {idx: rf}}
-    ops.append({"op": T("produce_messages", [1, 1, 0, recs_ if order == 0 else recs_[::-1]]), "plan": plan or None})
+    ops.append({"op": T("produce_messages", [acks, 1, 0, recs_ if order == 0 else recs_[::-1]]), "plan": plan or None})
     for k in range(2):
         ops.append(T("produce_messages", [1, 1, 0, [pm(T1, 0, b"k", b"x%d" % (k + 1))]]))
         ops.append(T("produce_messages", [1, 1, 0, [pm(T2, 0, None, b"y%d" % (k + 1))]]))
     ops.append(T("fetch_offsets", [[T1], T("earliest")]))
-    return {"cluster": spec, "ops": ops, "meta": {"kind": "produce2", "first": first, "tag": "two_broker", "plan": plan}}
+    return {"cluster": spec, "ops": ops, "meta": {"kind": "produce2", "first": first, "tag": "two_broker" if acks else "two_broker_noack", "plan": plan}}
 
 
 def gen(rng, tier):
@@ -193,6 +193,11 @@ def gen(rng, tier):
         for wf, rf in FAULT_PAIRS + [(None, None)]:
             for order in (0, 1):
                 cases.append(make_case2(rng, idx, wf, rf, order))
+    # (g) the same with acks disabled: nothing is read, the call may report success only if both frames were handed over whole
+    for idx in range(0, 4):
+        for wf in (["fail", "other"], 0, 3, "intr", None):
+            for order in (0, 1):
+                cases.append(make_case2(rng, idx, wf, ["fail", "timeout"], order, acks=0))
     # (e) refused connects
     for kind in KINDS:
         for h in (1, 2):
